@@ -311,9 +311,16 @@ Grid(bool thorough)
   std::vector<double> alphas;
   for (int a = 0; a <= 300; a += (thorough ? 1 : 25)) alphas.push_back(a / 100.0);
   for (double a : {std::nextafter(1.0, 0.0), std::nextafter(1.0, 2.0), 0.999, 1.001, 5.0, 20.0, 50.0, 700.0}) alphas.push_back(a);
+  // large skews at which an accumulated table entry can exceed 1 by a few ulps before the last bin (only small tables:
+  // the sum saturates within the first bins)
+  const std::vector<double> saturating{8.5, 9.75, 12.25, 15.5, 17.0, 23.25, 28.75};
+  const size_t ordinary = alphas.size();
+  for (double a : saturating) alphas.push_back(a);
   int ti = 0;
   for (long long n : ns) {
-    for (double alpha : alphas) {
+    for (size_t ai = 0; ai < alphas.size(); ++ai) {
+      const double alpha = alphas[ai];
+      if (ai >= ordinary && n > 300) continue;
       if (n > 100000 && !(alpha == 0.0 || alpha == 0.5 || alpha == 1.0 || alpha == 2.0 || alpha == 3.0)) continue;
       switch (ti++ % 4) {
         case 0: GridCase<uint32_t>(n, alpha, "u32", true); break;
